@@ -499,7 +499,21 @@ class TypeEngine(object):
             sub = self.const_sub(e.slice)
             if isinstance(e.value, ast.Call):
                 sub = None    # list(d.values())[0], d.get(k)[0]: the key association is lost
-            out |= self.contents_of(e.value, fn, sub)
+            c = self.contents_of(e.value, fn, sub)
+            if sub is None and c & CONTAINER_TAGS and c - CONTAINER_TAGS - {'none'} and 'dict' in vt:
+                # homogeneous nesting (dict of lists of elements): the first subscript yields the inner containers,
+                # a subscript of that yields the elements
+                depth = 0
+                v = e.value
+                while isinstance(v, ast.Subscript):
+                    depth += 1
+                    v = v.value
+                c = (c & CONTAINER_TAGS) if depth == 0 else (c - CONTAINER_TAGS)
+            elif sub is None and isinstance(e.value, ast.Subscript) and c & CONTAINER_TAGS and c - CONTAINER_TAGS:
+                inner = self.type_of(e.value, fn)
+                if inner <= CONTAINER_TAGS | {'none'}:
+                    c = c - CONTAINER_TAGS
+            out |= c
             for tag in vt:   # an ElementList / ElementProxy subscript goes through __getitem__
                 if tag.startswith('C:'):
                     ci = self.index.classes.get(tag[2:])
